@@ -6,7 +6,7 @@ cd /verif
 for d in seeded/*/; do
   id=$(basename $d); prop=${id%-*}
   extra=$(grep "^$id " selftest/seeded_map.txt 2>/dev/null | cut -d' ' -f2-)
-  out=$(MUT_TAIL=200 selftest/mut.sh $d/patch.diff $prop $extra 2>&1)
+  pf=$d/patch.diff; [ -f $d/patch.rebased.diff ] && pf=$d/patch.rebased.diff; out=$(MUT_TAIL=200 selftest/mut.sh $pf $prop $extra 2>&1)
   if echo "$out" | grep -q "PATCH DOES NOT APPLY"; then echo "$id NOAPPLY"; continue; fi
   hit=$(echo "$out" | grep "^VIOLATION" | sed 's/ replay.*//' | sort -u | tr '\n' ' ')
   if [ -n "$hit" ]; then echo "$id CAUGHT $hit"; else echo "$id missed"; fi
